@@ -390,3 +390,31 @@ def parse_expr(s: str) -> ast.expr:
 
 def norm_str(s: str, env=None, **kw) -> Rat:
     return Normaliser(env, **kw).norm(parse_expr(s))
+
+
+def int_cmp(node: ast.Compare, N: "Normaliser"):
+    """Canonical form of a comparison between integer-valued expressions.
+
+    Returns (tag, diff) with tag in {"le0", "ge0", "eq0", "ne0"} meaning ``diff <tag> 0``;
+    strict comparisons are turned into non-strict ones (x < y  <=>  x - y + 1 <= 0), and the
+    difference is oriented so that `a <= b` and `b >= a` coincide (always expressed as le0/eq0/ne0).
+    """
+    if len(node.ops) != 1:
+        raise Unsupported("chained comparison")
+    l, r = N.norm(node.left), N.norm(node.comparators[0])
+    op = node.ops[0]
+    d = l - r
+    one = Rat.const(1)
+    if isinstance(op, ast.LtE):
+        return "le0", d
+    if isinstance(op, ast.Lt):
+        return "le0", d + one
+    if isinstance(op, ast.GtE):
+        return "le0", -d
+    if isinstance(op, ast.Gt):
+        return "le0", -d + one
+    if isinstance(op, ast.Eq):
+        return "eq0", d
+    if isinstance(op, ast.NotEq):
+        return "ne0", d
+    raise Unsupported("comparison operator")
